@@ -293,6 +293,37 @@ func enumSequences() [][]int {
 	return out
 }
 
+// large frame sequences (length-extension bit, 64 KiB boundaries): the cut is enumerated over the offsets around
+// every frame header, just inside both ends of every body, the middle of every body and the end of the stream
+func enumLargeSequences() [][]int {
+	return [][]int{{0xFFFF}, {0x10000}, {0x1FFFF}, {1, 0x10000, 1}, {70000, 70000}, {0x10001, 0, 0xFFFF}}
+}
+
+func largeCutOffsets(seq []int) []int {
+	var offs []int
+	add := func(o int) {
+		for _, x := range offs {
+			if x == o {
+				return
+			}
+		}
+		offs = append(offs, o)
+	}
+	pos := 0
+	for _, l := range seq {
+		for d := 0; d <= 5; d++ {
+			add(pos + d)
+		}
+		if l > 2 {
+			add(pos + 4 + l/2)
+			add(pos + 4 + l - 1)
+		}
+		pos += 4 + l
+	}
+	add(pos)
+	return offs
+}
+
 // EnumSize is the number of runs in the exhaustive cut enumeration.
 func EnumSize() int64 {
 	var n int64
@@ -302,6 +333,9 @@ func EnumSize() int64 {
 			total += 4 + l
 		}
 		n += int64(total+1) * 3 * 3 * 2
+	}
+	for _, s := range enumLargeSequences() {
+		n += int64(len(largeCutOffsets(s))) * 3 * 2 * 2
 	}
 	return n
 }
@@ -325,6 +359,27 @@ func enumPlan(index int64) *plan {
 		index /= 3
 		p.segMode = int(index%3) - 1 // -1 random, 0 whole, 1 byte by byte
 		index /= 3
+		if index == 0 {
+			p.wiring = WireSUTRecv
+		} else {
+			p.wiring = WirePair
+		}
+		return p
+	}
+	for _, s := range enumLargeSequences() {
+		offs := largeCutOffsets(s)
+		size := int64(len(offs)) * 3 * 2 * 2
+		if index >= size {
+			index -= size
+			continue
+		}
+		p := &plan{lens: s, window: 1 << 20}
+		p.cutAt = offs[index%int64(len(offs))]
+		index /= int64(len(offs))
+		p.cutKind = 1 + int(index%3)
+		index /= 3
+		p.segMode = int(index%2) - 1 // -1 seeded, 0 whole
+		index /= 2
 		if index == 0 {
 			p.wiring = WireSUTRecv
 		} else {
